@@ -76,22 +76,18 @@ func (am *YAMLAccountManager) Create(account hotline.Account) error {
 	defer am.mu.Unlock()
 
 	// Create account file, returning an error if one already exists.
-	file, err := os.OpenFile(
-		filepath.Join(am.accountDir, path.Join("/", account.Login+".yaml")),
-		os.O_CREATE|os.O_EXCL|os.O_WRONLY, 0644,
-	)
-	if err != nil {
-		return fmt.Errorf("create account file: %w", err)
+	accountPath := filepath.Join(am.accountDir, path.Join("/", account.Login+".yaml"))
+	if _, err := os.Stat(accountPath); err == nil {
+		return fmt.Errorf("create account file: %w", os.ErrExist)
 	}
-	defer file.Close()
 
 	b, err := yaml.Marshal(account)
 	if err != nil {
 		return fmt.Errorf("marshal account to YAML: %v", err)
 	}
 
-	_, err = file.Write(b)
-	if err != nil {
+	// Write the complete file under a temporary name first: a crash must not leave an empty or partial account file.
+	if err := writeFileAtomic(accountPath, b, 0644); err != nil {
 		return fmt.Errorf("write account file: %w", err)
 	}
 
@@ -125,7 +121,7 @@ func (am *YAMLAccountManager) Update(account hotline.Account, newLogin string) e
 		return err
 	}
 
-	if err := os.WriteFile(filepath.Join(am.accountDir, path.Join("/", newLogin)+".yaml"), out, 0644); err != nil {
+	if err := writeFileAtomic(filepath.Join(am.accountDir, path.Join("/", newLogin)+".yaml"), out, 0644); err != nil {
 		return fmt.Errorf("error writing account file: %w", err)
 	}
 
